@@ -18,7 +18,7 @@ CLAIMS = {
  "C07": ("Mutual exclusion half only: the handler call of a Sequential registration happens with that registration's mutex held (at-call assertion in callHandlerWithContext, lockset bookkeeping, sequential flag immutable), so invocations cannot overlap (M1). The FIFO-order half for Async+Sequential is a scheduling property no contract in reach expresses; it is not decided (DESIGN.md).", "5 C07"),
  "C08": ("Hook-count, hook-order, context-threading and cancellation contracts of PublishContext/Publish/callHandlerWithContext for every handler list, hook combination and cancellation point (monotone context oracle).", "5 C08"),
  "C09": ("Option-order independence (every With* option literal and New preserve PersistInv: the context-aware before hook persists), exactly one Append per publish with type name evName(dynType(event)) and data json(event) before any delivery, Append under storeMu; MemoryStore.Append assigns strictly increasing offsets (pad20 lemmas). The decode-yields-published-value clause rests on the assumed json round-trip contract.", "5 C09"),
- "C10": ("Memory store: Append/Read/ReadStream/SaveOffset/LoadOffset against an abstract append-only log (ghost log, posOf, resumable) with the 20-digit padding order lemmas discharged as SMT lemma files. SQLite: parseOffset/formatOffset inverse, scanEvents/streamRows/streamBatch row-to-event contracts over an assumed database/sql Rows contract. Not covered: SQL statement semantics, durable-streams store (HTTP), timestamp text format (listed as unverified in DESIGN.md).", "5 C10"),
+ "C10": ("Memory store: Append/Read/ReadStream/SaveOffset/LoadOffset against an abstract append-only log (ghost log, posOf, resumable) with the 20-digit padding order lemmas discharged as SMT lemma files. SQLite: parseOffset/formatOffset inverse, scanEvents/streamRows/streamBatch row-to-event contracts over an assumed database/sql Rows contract. SQLite SQL layer: the five statement texts are pinned (prepareStatements), Append/Read/SaveOffset/LoadOffset/ReadStream/streamBatched issue them with the right arguments and map rows to events; what the texts mean is an assumed contract (deps_sql.spec). Durable-streams store: Append sends exactly type/data/RFC3339Nano timestamp, Read maps the chunk to events and its next-offset discipline is checked (a genuine gap is a recorded known finding); HTTP and the server are assumed. Two known findings (sqlite offsets not lexicographically ordered; durable-streams limit truncation).", "5 C10"),
  "C11": ("Replay's paged and streaming loops against the abstract log: nil only after the whole suffix was delivered, otherwise a non-nil error after a gap-free prefix, callback exactly once per event in order, no Append and no handler call (frame); iterator protocol contracts for MemoryStore.ReadStream and SQLite streamRows/streamBatch incl. rows.Err().", "5 C11"),
  "C12": ("SubscribeWithReplay contracts: resume from the loaded offset, load errors returned, catch-up callback saves after the handler and only for matching decodable events, live wrapper saves bus.lastOffset read under storeMu after the handler, never OffsetOldest. One genuine defect is recorded as a known finding (events appended during a streaming catch-up are skipped).", "5 C12"),
  "C13": ("Failure-containment contracts of persistEvent (no panic, error handler exactly once with event/type/non-nil error, no retry, lastOffset only on success, timeout context descends and is cancelled).", "5 C13"),
@@ -26,8 +26,8 @@ CLAIMS = {
  "C16": ("hasCycleDFS against reachability in the upcaster graph (sound when true; when false every newly visited node is closed under edges, which at top level gives no path by the closed-set lemma), wouldCreateCycle == reach(target, source) exactly, register rejects exactly on the four causes and inserts under the same write lock as the check, lock invariant 'graph acyclic' re-established by register (edge-addition lemma), clear, clearType and established by the constructor. The graph lemmas are SMT axioms whose statements are proved in Lean 4/Mathlib (lemmas/lean/GraphReach.lean). apply's loop never follows a type twice (appliedTypes) - termination itself (of apply and of the DFS) is not verified: the technique has no variants here.", "5 C16"),
  "C17": ("upcastRegistry.apply against the recursive chain specification (chainD/chainT/chainOK with first-registered upcaster), failure returns the original, ReplayWithUpcast callback passes composed data/type with offset and timestamp unchanged and calls the error handler once, typed upcaster closure = json(f(unjson(data))) with a fresh decode target.", "5 C17"),
  "C18": ("Materializer fold: Apply/applyChange/applyControl/typedCollectionApplier contracts over the Store[T] map laws (Set/Delete/Clear/Get as map update with frame), CompositeKey injectivity lemma, lastOffset updated exactly on success; the two-session clause follows from the per-event step contract by M7.", "5 C18"),
- "C19": ("Rejection half: Apply never panics on arbitrary bytes (no-panic obligations of the whole Apply call tree), and an event that cannot be applied returns an error with collections and lastOffset unchanged (frame postconditions). The round-trip half through the helper constructors rests on the assumed json contract and is only partly covered (EntityType/CompositeKey).", "5 C19"),
- "C20": ("Core half: publish/handler/persist observability callbacks come in matched pairs, in order, with the context returned by the start passed to the complete and to the nested work, error exactly on panic/failure (contracts of PublishContext, callHandlerWithContext, persistEvent). The OpenTelemetry implementation (otel module) is not under contract.", "5 C20"),
+ "C19": ("Rejection half: Apply never panics on arbitrary bytes (no-panic obligations of the whole Apply call tree), and an event that cannot be applied returns an error with collections and lastOffset unchanged (frame postconditions). Round-trip half: the five helper constructors and newChangeMessage build a message with exactly the given key, operation and the JSON encodings of value and old value (separate encodings, fresh message); that decoding an encoding yields the value again is the assumed json law.", "5 C19"),
+ "C20": ("Core half: publish/handler/persist observability callbacks come in matched pairs, in order, with the context returned by the start passed to the complete and to the nested work, error exactly on panic/failure (contracts of PublishContext, callHandlerWithContext, persistEvent). OpenTelemetry half: every On*Start starts exactly one span on a context descending from the one it is given and returns the context carrying it, increments its counter once by 1; every On*Complete ends exactly the span of the context it is given, records the duration once and increments the error counter exactly when err != nil (contracts on the six methods over an assumed OpenTelemetry API contract); pairing across calls follows from the core half by M7.", "5 C20"),
 }
 
 NA = {
